@@ -99,6 +99,15 @@ fn enc_vec<T: Writable>(v: &T) -> Result<Vec<u8>, &'static str> {
     }
 }
 
+/// the same value written twice with ONE writer: what the second write appends
+fn enc_reused<T: Writable>(v: &T) -> Result<Vec<u8>, &'static str> {
+    let mut w = ProtobufWriter::default();
+    w.write(v).map_err(|e| proto_err(&e))?;
+    let first = w.len_written();
+    w.write(v).map_err(|e| proto_err(&e))?;
+    Ok(w.as_bytes()[first..].to_vec())
+}
+
 fn enc_slice<T: Writable>(v: &T, cap: usize) -> Result<Vec<u8>, &'static str> {
     // canary bytes behind the slice handed to the writer
     let mut buf = vec![0xA5u8; cap + 4];
@@ -165,7 +174,12 @@ impl<'a> Visitor for Op<'a> {
                                 Err(k) => format!("err:{k}"),
                             }
                         };
-                        format!("ok {} slice:{} short:{}", hex(&bytes), exact, short)
+                        // a writer that has already written a value appends the same octets for the next
+                        let reuse = match enc_reused(&v) {
+                            Ok(second) if second == bytes => 1,
+                            _ => 0,
+                        };
+                        format!("ok {} slice:{} short:{} reuse:{}", hex(&bytes), exact, short, reuse)
                     }
                 }
             }
